@@ -6,6 +6,7 @@ import ast
 from ..const import NameRef, module_const
 from ..core import AnalysisError, walk_no_nested as _wnn, calls_in, call_name, const_str, dotted, unparse, walk_no_nested
 from ..match import canon, enclosing_map, if_chain
+from ..match import kwarg as kwarg_
 from ..report import Ctx
 from .c08 import APPENDERS
 
@@ -217,7 +218,64 @@ def r3_include_is_transparent(ctx: Ctx) -> None:
         ok = not any((call_name(c) or "").split(".")[-1] in APPENDERS or call_name(c) in ("ScopeNode", "PopScopeNode") for c in calls_in(fn.node)) and \
             any(call_name(c) == "_code_gen" and unparse(c.args[0]) == f"{fn.params()[0]}.body" for c in calls_in(fn.node))
     ctx.check(bool(ok), "generators[block]", "a spliced block expands its statements in place without opening a scope (so moving statements into an include changes nothing)")
+    if isinstance(g, NameRef):
+        # ... and against the caller's own macro table: a macro defined in the included file is applied after the .include line
+        from ..match import alias_root
+
+        fn = ctx.repo.func("a816.parse.codegen", g.name)
+        mparam = fn.params()[2]
+        for c in [c for c in calls_in(fn.node) if call_name(c) == "_code_gen"]:
+            a = c.args[2] if len(c.args) > 2 else kwarg_(c, "macro_definitions")
+            if a is None:
+                raise AnalysisError("generators[block]: _code_gen call without a macro table argument")
+            if isinstance(a, ast.Name) and alias_root(fn.node, a.id) == mparam:
+                ctx.ok("generators[block]:macro-table", "the block's statements define and look up macros in the caller's table")
+            elif (isinstance(a, ast.Call) and (call_name(a) in ("dict", "copy.copy", "copy.deepcopy") or (call_name(a) or "").endswith(".copy"))) or isinstance(a, (ast.Dict, ast.DictComp)):
+                ctx.fail("generators[block]:macro-table", f"the block is expanded against `{unparse(a)}`, a private table: macros defined in an included file (or a {{ }} block) "
+                         "vanish at its end, so moving a .macro definition into an include makes later applications fail")
+            else:
+                raise AnalysisError(f"generators[block]: macro table argument `{unparse(a)[:50]}` not modelled")
     ctx.count("include_facts", 2)
+
+
+def r4_search_results_checked(ctx: Ctx) -> None:
+    """the last line of a file need not end in a newline: `text.find("\\n", pos)` is -1 there, and -1 used as a slice bound silently
+    drops the last character.  In the scanner and parser every str.find / rfind result that reaches a slice bound or an index is
+    first compared with -1 (or 0)."""
+    n = 0
+    for mi in ctx.repo.modules.values():
+        if not mi.name.startswith("a816.parse"):
+            continue
+        fns = list(mi.functions.values()) + [m for c in mi.classes.values() for m in c.methods.values()]
+        for fn in fns:
+            finds = [c for c in calls_in(fn.node) if isinstance(c.func, ast.Attribute) and c.func.attr in ("find", "rfind")]
+            if not finds:
+                continue
+            parents = {id(ch): p for p in ast.walk(fn.node) for ch in ast.iter_child_nodes(p)}
+            compared = {unparse(x) for cmp_ in ast.walk(fn.node) if isinstance(cmp_, ast.Compare) for x in [cmp_.left] + cmp_.comparators}
+            for c in finds:
+                n += 1
+                holder: ast.AST = c
+                name = None
+                p = parents.get(id(c))
+                if isinstance(p, ast.Assign) and len(p.targets) == 1 and isinstance(p.targets[0], ast.Name):
+                    name = p.targets[0].id
+                checked = unparse(c) in compared or (name is not None and name in compared)
+                uses = [c] if name is None else [x for x in ast.walk(fn.node) if isinstance(x, ast.Name) and x.id == name and isinstance(x.ctx, ast.Load)]
+                in_bound = False
+                for u in uses:
+                    q: ast.AST | None = u
+                    while q is not None and not isinstance(q, ast.stmt):
+                        par = parents.get(id(q))
+                        if isinstance(par, ast.Slice) or (isinstance(par, ast.Subscript) and par.slice is q):
+                            in_bound = True
+                        q = par
+                if in_bound and not checked:
+                    ctx.fail(f"{fn.where}:{unparse(c)[:40]}", "the search result is used as a slice bound / index without a test for -1: when the searched character is absent "
+                             "(a last line without its newline) the last character is dropped, so adding or removing a final newline changes the tokens")
+                else:
+                    ctx.ok(f"{fn.where}:{unparse(c)[:40]}", "search result tested before use" if checked else "search result not used as a bound")
+    ctx.count("find_calls", n)
 
 
 def rm_no_process_lifetime_results(ctx: Ctx) -> None:
@@ -227,4 +285,4 @@ def rm_no_process_lifetime_results(ctx: Ctx) -> None:
     state_rule(ctx)
 
 
-RULES = [r1_case_fold_before_keying, r2_skip_sets, r3_include_is_transparent, rm_no_process_lifetime_results]
+RULES = [r1_case_fold_before_keying, r2_skip_sets, r3_include_is_transparent, r4_search_results_checked, rm_no_process_lifetime_results]
